@@ -75,7 +75,7 @@ def replay_case(item):
     extra = batch_obs.PB if mode == 'pb' else ''
     if mode == 'batch' and kind in ('vars', 'rv0') and par[2] <= 0 and par[3] >= 1 and i % 3 == 2:
         extra = batch_obs.NEST
-    obs = batch_obs.observe(par, kind=kind, seqkind=seqkind, as_str=(i % 2 == 1), extra=extra)
+    obs = batch_obs.observe(par, kind=kind, seqkind=seqkind, as_str=('obj' if i % 5 == 2 else i % 2 == 1), extra=extra)
     obs['np'] = 0
     obs['variant'] = [kind, seqkind, mode + ('+nested' if extra == batch_obs.NEST else '')]
     same = obs['e'] == e and obs['c'] == c and (c == 1 or (obs['r'] == rows and obs['pl'] == pulled)) \
@@ -87,7 +87,7 @@ def observe_random(item):
     i, par = item
     seqkind = _seqkind(i, par[0])
     kind = 'rv0' if i % 3 == 0 else 'vars'
-    obs = batch_obs.observe(par, kind=kind, seqkind=seqkind, as_str=(i % 2 == 1))
+    obs = batch_obs.observe(par, kind=kind, seqkind=seqkind, as_str=('obj' if i % 5 == 2 else i % 2 == 1))
     obs['np'] = 0
     obs['variant'] = [kind, seqkind, 'batch']
     return {'ok': 0, 'obs': obs, 'mode': 'batch'}
